@@ -8,8 +8,9 @@ From FCA Require Import Base.ListSet Base.Order Model.LatticeOrder Spec.Closure 
 
 Lemma index_of_head c d l : fst c = fst d -> index_of c (d :: l) = 0.
 Proof.
-  intros E. unfold index_of. simpl. rewrite E.
-  replace (nat_list_eqb (fst d) (fst d)) with true by (symmetry; apply nat_list_eqb_eq; reflexivity).
+  intros E. unfold index_of. simpl. unfold same_extent, support. rewrite E, Nat.eqb_refl.
+  replace (nat_list_eqb (sort_nat (fst d)) (sort_nat (fst d))) with true
+    by (symmetry; apply nat_list_eqb_eq; reflexivity).
   reflexivity.
 Qed.
 
@@ -46,6 +47,7 @@ Section Total.
   Let isort_i := fun k => index_of (cnth sorted k) cs.
   Let i_isort := fun i => index_of (cnth cs i) sorted.
   Let parents := parents_nocache cs.
+  Let Hcan : canon_list cs := concept_list_canon t cs HL.
 
   Lemma HFs : full_lattice t sorted.
   Proof. apply (listing_full t cs HF). Qed.
@@ -70,7 +72,7 @@ Section Total.
   Lemma isort_nonzero k : k < n -> k <> 0 -> extent cs (isort_i k) <> all_objs t.
   Proof.
     intros Hk Hnz E. apply Hnz.
-    destruct (isort_lt cs k Hk) as [_ Hext]. fold sorted in Hext. fold isort_i in Hext.
+    destruct (isort_lt cs Hcan k Hk) as [_ Hext]. fold sorted in Hext. fold isort_i in Hext.
     apply (extent_inj t sorted (proj1 HFs)); try (rewrite slen; lia).
     transitivity (extent cs (isort_i k)); [symmetry; exact Hext | rewrite E; symmetry; exact sorted_top].
   Qed.
@@ -127,7 +129,7 @@ Section Total.
   Lemma isort_inj a b : a < n -> b < n -> isort_i a = isort_i b -> a = b.
   Proof.
     intros Ha Hb E.
-    destruct (isort_lt cs a Ha) as [_ Ea]. destruct (isort_lt cs b Hb) as [_ Eb].
+    destruct (isort_lt cs Hcan a Ha) as [_ Ea]. destruct (isort_lt cs Hcan b Hb) as [_ Eb].
     fold sorted in Ea, Eb. fold isort_i in Ea, Eb.
     apply (extent_inj t sorted (proj1 HFs)); try (rewrite slen; lia).
     transitivity (extent cs (isort_i a)); [symmetry; exact Ea | rewrite E; exact Eb].
@@ -177,7 +179,7 @@ Section Total.
           assert (In k (rev (seq 0 n))) by (rewrite <- in_rev; apply in_seq; lia). specialize (X H). discriminate. }
       assert (F' := F). apply find_some in F'. destruct F' as [Hk Hm].
       apply in_rev in Hk. apply in_seq in Hk. apply negb_true_iff in Hm. apply mem_false_iff in Hm.
-      destruct (isort_lt cs k) as [Hik _]; [unfold n in Hk; lia|]. fold sorted in Hik. fold isort_i in Hik. fold n in Hik.
+      destruct (isort_lt cs Hcan k) as [Hik _]; [unfold n in Hk; lia|]. fold sorted in Hik. fold isort_i in Hik. fold n in Hik.
       destruct (walk_total (S n) (isort_i k) k [] Hik) as [ch W].
       { intros Hnz. apply isort_nonzero; [lia | exact Hnz]. }
       { assert (X : length (ancestors_nocache cs (isort_i k)) <= n).
@@ -185,9 +187,9 @@ Section Total.
           unfold idxs. rewrite seq_length. fold n. lia. }
         lia. }
       rewrite W.
-      destruct (chain_walk_ok cs parents (parents_nocache_range cs) (S n) (isort_i k) k [] ch Hik n_pos)
+      destruct (chain_walk_ok cs parents (parents_nocache_range cs) Hcan (S n) (isort_i k) k [] ch Hik n_pos)
         as [L [E1 [Hne [Hlast [_ [_ HL']]]]]].
-      { intros ->. destruct (isort_lt cs 0 n_pos) as [_ E0]. exact E0. }
+      { intros ->. destruct (isort_lt cs Hcan 0 n_pos) as [_ E0]. exact E0. }
       { exact W. }
       rewrite app_nil_r in E1. subst L.
       apply IH.
